@@ -40,6 +40,9 @@ type dcCase struct {
 	SchedSeed uint64         `json:"sched_seed"`
 	Strat     simrt.Strategy `json:"strat"`
 	NetSeed   uint64         `json:"net_seed"`
+	// Detach (C18): both peers run with SettingEngine.DetachDataChannels; "detach" operations hand an
+	// open channel's stream to the application (the channel stays open and keeps its stream id)
+	Detach bool `json:"detach,omitempty"`
 }
 
 func dcGenFor(prop string) func(seed uint64, idx, total int, tier string) any {
@@ -90,6 +93,25 @@ func dcGenFor(prop string) func(seed uint64, idx, total int, tier string) any {
 				default:
 					ops = append(ops, dcOp{Kind: "sleep", Ms: r.Range(1, 30)})
 				}
+			}
+			c.Tasks = append(c.Tasks, ops)
+		}
+		if prop == "C18" && r.Bool(0.25) {
+			// detached channels: some of the created channels are detached once open, further channels follow
+			c.Detach = true
+			// (with detached channels pion starts no read loop: nothing notices a remote close and a
+			// graceful close has nothing to wait for; the close operations are left to the other cases)
+			for ti := range c.Tasks {
+				for oi := range c.Tasks[ti] {
+					if k := c.Tasks[ti][oi].Kind; k == "close" || k == "rclose" || k == "pcclose" {
+						c.Tasks[ti][oi] = dcOp{Kind: "sleep", Ms: 2}
+					}
+				}
+			}
+			var ops []dcOp
+			for k := r.Range(1, 3); k > 0 && nch > 0; k-- {
+				ops = append(ops, dcOp{Kind: "detach", Ch: r.Intn(nch)}, dcOp{Kind: "create", Peer: r.Intn(2), Ch: nch})
+				nch++
 			}
 			c.Tasks = append(c.Tasks, ops)
 		}
@@ -152,12 +174,17 @@ func dcRunFor(prop string) func(t *testing.T, cj []byte, res *vfResult) {
 			ha, _ := nw.addHost("10.0.1.2")
 			hb, _ := nw.addHost("10.0.2.2")
 			_ = nw.Start()
-			pa, err := vfNewPeer("A", ha)
+			detach := func(se *SettingEngine, me *MediaEngine, cf *Configuration) {
+				if c.Detach {
+					se.DetachDataChannels()
+				}
+			}
+			pa, err := vfNewPeer("A", ha, detach)
 			if err != nil {
 				setupErr = err.Error()
 				return
 			}
-			pb, err := vfNewPeer("B", hb)
+			pb, err := vfNewPeer("B", hb, detach)
 			if err != nil {
 				setupErr = err.Error()
 				return
@@ -310,6 +337,19 @@ func dcRunFor(prop string) func(t *testing.T, cj []byte, res *vfResult) {
 									track(&dcObj{label: label, side: "local", peer: 1 - op.Peer, d: d2, explicit: true, invAt: retAt, claimAt: ret2})
 								}
 							}
+						case "detach":
+							o := waitObj(func() *dcObj { return chans[op.Ch] })
+							if o == nil || !c.Detach {
+								continue
+							}
+							for i := 0; i < 2000 && o.d.ReadyState() == DataChannelStateConnecting; i++ {
+								time.Sleep(time.Millisecond) // (Detach is for open channels)
+							}
+							_, err := o.d.Detach()
+							st := o.d.ReadyState() // (no instrumented call while the harness mutex is held)
+							mu.Lock()
+							lines = append(lines, fmt.Sprintf("t%d detach %s state=%s err=%v", ti, o.label, st, err))
+							mu.Unlock()
 						case "close":
 							o := waitObj(func() *dcObj { return chans[op.Ch] })
 							if o == nil {
